@@ -10,7 +10,7 @@ verdict falls back to the obligation lock, with no input."""
 import re
 
 BUILDABLE = {"receiver.ChunkedReceiver", "receiver.FixedStreamReceiver", "parser.HTTPRequestParser", "buffers.OverflowableBuffer",
-             "buffers.FileBasedBuffer", "buffers.ReadOnlyFileBasedBuffer"}
+             "buffers.FileBasedBuffer", "buffers.BytesIOBasedBuffer", "buffers.TempfileBasedBuffer", "buffers.ReadOnlyFileBasedBuffer"}
 
 
 def entry_values(model):
@@ -58,7 +58,9 @@ def make_replayer(ck, mods):
                 fields["view"] = {"t": "bytes", "v": [ord(c) for c in ev[base + ".view"]]}
             return {"t": "obj", "cls": ty[1], "fields": fields}
         if k == "oneof":
-            return typed(ty[1][0], base, ev)
+            alts = ty[1]
+            idx = next((i for i in range(len(alts)) if ev.get("%s_is_%d" % (base, i)) is True), len(alts) - 1 if ev.get(base + "_is_0") is False else 0)
+            return typed(alts[min(idx, len(alts) - 1)], base, ev)
         return {"t": "opaque"}
 
     def replayer(name, rec, model):
